@@ -423,9 +423,11 @@ fn base_args(o: &Opts) -> Vec<String> {
     if let Some(m) = o.max {
         a.push(format!("-m{}", m));
     }
-    // half of the cases go through the single-threaded `search`, half through `search_parallel`
-    if fnv(o.pat.as_bytes()) % 2 == 0 {
-        a.push("-j1".into());
+    // a third of the cases each: single-threaded `search` via -j1, via --sort path, and `search_parallel`
+    match fnv(o.pat.as_bytes()) % 3 {
+        0 => a.push("-j1".into()),
+        1 => a.push("--sort=path".into()),
+        _ => {}
     }
     a
 }
@@ -504,7 +506,11 @@ fn run_cli(case: &str, o: &Opts, args: &Args, drv: &mut Driver, rep: &mut Report
         sizes.insert(p, input.len());
     }
     rep.branch(if ml { "cli:multi-line" } else { "cli:single-line" });
-    rep.branch(if fnv(o.pat.as_bytes()) % 2 == 0 { "cli:single-threaded" } else { "cli:parallel" });
+    rep.branch(match fnv(o.pat.as_bytes()) % 3 {
+        0 => "cli:single-threaded-j1",
+        1 => "cli:single-threaded-sort",
+        _ => "cli:parallel",
+    });
     let run = |extra: &[&str]| rg(&rgbin, &dir, o, extra);
     let (std_r, o_r, c_r, cm_r, l_r, bl_r, q_r, j_r, st_r) = match (
         run(&["-H", "--no-heading", "--null", "-N"]),
@@ -684,11 +690,72 @@ fn run_cli(case: &str, o: &Opts, args: &Args, drv: &mut Driver, rep: &mut Report
             }
         }
         rep.branch("cli:stats-compared");
+        // --quiet must only suppress output: with --stats (or --json) the search may not stop at the first
+        // matching file (quit_after_match = quiet AND no stats), so the totals are the same sums
+        if let Some(qs) = run(&["-q", "--stats"]) {
+            let qb = stats_block(&qs.stdout);
+            for k in ["matches", "matched lines", "files contained matches", "files searched", "bytes searched"] {
+                if qb.get(k) != sb.get(k) {
+                    fail(rep, "", format!("-q --stats '{}' = {:?}, --stats says {:?}", k, qb.get(k), sb.get(k)));
+                }
+            }
+            if qs.code != std_r.code {
+                fail(rep, "", format!("exit status: -q --stats {} standard {}", qs.code, std_r.code));
+            }
+            let m = drv.ask("c10.normalize standard 0 0 1 1");
+            if !m.contains("quit_after_match=0") {
+                viol(rep, "impl_vs_model", "", "hiargs quit_after_match vs Model.Summary (statsOn)", case, m);
+            }
+            rep.branch("cli:quiet-stats");
+        }
+        if let Some(qj) = run(&["--json", "-q"]) {
+            // -q wins over --json (a quiet Summary printer); only the JSON `summary` line is printed
+            let mut qt: Option<[u64; 5]> = None;
+            for l in qj.stdout.split(|&b| b == b'\n').filter(|l| !l.is_empty()) {
+                if let Ok(v) = serde_json::from_slice::<Value>(l) {
+                    if v["type"] == "summary" {
+                        let st = &v["data"]["stats"];
+                        let mut x = [0u64; 5];
+                        for k in 0..5 {
+                            x[k] = st[sfields[k]].as_u64().unwrap_or(0);
+                        }
+                        qt = Some(x);
+                    }
+                }
+            }
+            match qt {
+                Some(x) => {
+                    // the quiet Summary sink accounts for every searched file, like text --stats
+                    let want = [
+                        sb.get("files searched").copied().unwrap_or(0),
+                        sb.get("files contained matches").copied().unwrap_or(0),
+                        sb.get("bytes searched").copied().unwrap_or(0),
+                        sb.get("matched lines").copied().unwrap_or(0),
+                        sb.get("matches").copied().unwrap_or(0),
+                    ];
+                    if x != want {
+                        fail(rep, "", format!("--json -q summary totals {:?}, --stats says {:?}", x, want));
+                    }
+                    rep.branch("cli:json-quiet");
+                }
+                None => fail(rep, "", "--json -q printed no summary message".into()),
+            }
+        }
     } else {
         fail(rep, "", "--json printed no summary message".into());
     }
     // mode normalisation
     if o.invert {
+        // `-c -o -v` stays --count (F33, fixed 221fc03: it used to become --count-matches and print 0)
+        if let Some(r) = run(&["-c", "-o", "-H", "--null"]) {
+            if per_path(&r.stdout) != c_pp {
+                fail(rep, "", "-v -c -o differs from -v -c".into());
+            }
+            let m = drv.ask("c10.normalize count 1 1 0 0");
+            if !m.starts_with("printer=sum:count ") {
+                viol(rep, "impl_vs_model", "", "hiargs mode normalisation vs Model.Summary.normalizeMode", case, m);
+            }
+        }
         if let Some(r) = run(&["--count-matches", "-H", "--null"]) {
             if per_path(&r.stdout) != c_pp {
                 fail(rep, "", "-v --count-matches differs from -v -c".into());
